@@ -24,7 +24,7 @@ FUNCTIONS = [
     "center_to_inner", "inner_to_center")]
 BOUNDS = {
     "quick": {"N": [2, 3], "layouts": "all 16 position subsets containing center", "extra_dims": "0 or 1 (size 2), every interleaving",
-              "axes": "1 axis (all shifts, all operators, rules per call and as grid default); 2 axes in both orders",
+              "axes": "1 axis (all shifts, all operators, rules per call and as grid default; built-in default shifts and every user default_shifts entry for centre data); 2 axes in both orders",
               "data": "all real values (symbolic)", "fill_value": "per call: symbolic; grid default: concrete 0 / 2.5"},
     "thorough": {"N": [2, 3, 4, 5], "layouts": "all 16", "extra_dims": "0..3 (sizes 1-2), every interleaving (N=5: 0..1)",
                  "axes": "1, 2 and 3 axes in every order", "data": "all real values (symbolic)",
@@ -66,6 +66,15 @@ def cases(tier):
                     n_orders = len(interleavings(["x"], [e[0] for e in extra]))
                     for oi in range(n_orders):
                         out.append(dict(kind="1ax", N=N, layout=list(layout), gmode=gm, extra=extra, order=oi))
+    # user-documented default shifts given to the Grid (default_shifts={'X': {...}}): omitted `to` follows them
+    for N in Ns[:2]:
+        for layout in layouts():
+            nc = [q for q in layout if q != "center"]
+            if len(nc) < 2:
+                continue
+            for q in nc:
+                for gm in ("periodic", "fill25"):
+                    out.append(dict(kind="dshift", N=N, layout=list(layout), gmode=gm, center_to=q))
     # multi-axis
     two = [(("center", "left"), ("center", "outer")), (("center", "right", "inner"), ("center", "left", "right")),
            (("center", "outer", "inner"), ("center", "right"))]
@@ -117,6 +126,8 @@ def case(W, cfg):
         return case_1ax(W, cfg)
     if cfg["kind"] == "2ax":
         return case_2ax(W, cfg)
+    if cfg["kind"] == "dshift":
+        return case_dshift(W, cfg)
     return case_3ax(W, cfg)
 
 
@@ -155,6 +166,36 @@ def case_1ax(W, cfg):
                         continue
                     want = apply_along(a, ax_i, lambda v: spec_1d(v, frm, eff_to, N, op, rule, fill))
                     W.equal("value:" + lab, r.data, want)
+
+
+def case_dshift(W, cfg):
+    """Grid(default_shifts={'X': {'center': q}}): the documented default for centre data is q; positions the user
+    mapping does not name keep the built-in table"""
+    N, layout, gm, q = cfg["N"], tuple(cfg["layout"]), cfg["gmode"], cfg["center_to"]
+    gkw, grule, gfill = GMODES[gm]
+    axes = {"X": layout}
+    ds = make_ds(axes, N, {"t": 2})
+    grid = make_grid(ds, axes, default_shifts={"X": {"center": q}}, **gkw)
+    dims = axis_dims("X", layout)
+    for frm in layout:
+        eff_to = q if frm == "center" else spec_default_shift(frm, layout)
+        order = [dims[frm], "t"]
+        a = W.data("a", [plen(frm, N), 2])
+        da = xr.DataArray(a, dims=order)
+        for op in OPS:
+            for variant in ("default", "percall"):
+                kw, rule, fill = ({}, grule, gfill) if variant == "default" else _kwargs(W, "fill+fv")
+                lab = "%s:%s->default(%s):%s" % (op, frm, eff_to, variant)
+                r = getattr(grid, op)(da, "X", **kw)
+                exp_dims = (dims[eff_to], "t")
+                W.require("dshift-dims:" + lab, tuple(r.dims) == exp_dims, "dims %s want %s" % (r.dims, exp_dims))
+                if tuple(r.dims) != exp_dims:
+                    continue
+                want = apply_along(a, 0, lambda v: spec_1d(v, frm, eff_to, N, op, rule, fill))
+                W.equal("dshift-value:" + lab, r.data, want)
+        if frm == "center":
+            r = grid.cumsum(da, "X", boundary="fill", fill_value=0.0)
+            W.require("dshift-cumsum-dims", tuple(r.dims) == (dims[q], "t"), str(r.dims))
 
 
 TWO_SHIFTS = {  # (from, to) per axis used in the multi-axis cases
